@@ -672,7 +672,10 @@ class RecipeGen:
                 else:
                     self.values.append({"r": self.add({"op": "constant", "name": f"k{len(self.nodes)}", "callable": False})})
             elif r < 0.95:
-                self.values.append({"r": self.add({"op": "cast", "x": rng.choice(self.values)})})
+                # casts are stacked on earlier aliases half of the time (alias of an alias)
+                prev = [v for v in self.values if "r" in v and "k" not in v and self.nodes[v["r"]]["op"] in ("cast", "assert")]
+                x = rng.choice(prev) if prev and rng.random() < 0.5 else rng.choice(self.values)
+                self.values.append({"r": self.add({"op": "cast", "x": x})})
             elif self.nested:
                 lam = self.add({"op": "lambda", "key": {"lit": rng.randint(0, 2)}, "sym": rng.choice(["+", "*"]),
                                 "closure": [rng.choice([v for v in self.values if v not in self.oneshot]) for _ in range(rng.randint(0, 2))], "name": rng.choice([None, f"inner{len(self.nodes)}"])})
@@ -981,8 +984,14 @@ D6_WITNESS_CALLS = {"n_inputs": 1, "nodes": [
     {"op": "call", "fn": {"r": 1}, "args": [{"r": 4}]}, {"op": "call", "fn": {"r": 2}, "args": [{"r": 4}]}, {"op": "call", "fn": {"r": 3}, "args": [{"r": 4}]}],
     "output": {"tuple": [{"r": 5}, {"r": 6}, {"r": 7}]}}
 UNARY_WITNESS = {"n_inputs": 1, "nodes": [{"op": "operator", "sym": "-", "args": [{"in": 0}]}, {"op": "getattr", "obj": {"r": 0}, "key": "shape"}], "output": {"r": 1}}
+# stacked aliases (cast of cast, cast of assert): every use of the outer alias is a use of the innermost operand
+ALIAS2_WITNESS = {"n_inputs": 1, "nodes": [{"op": "getitem", "obj": {"in": 0}, "key": {"lit": 0}}, {"op": "cast", "x": {"r": 0}}, {"op": "cast", "x": {"r": 1}}],
+                  "output": {"tuple": [{"r": 2}, {"r": 2}]}}
+ALIAS2_ASSERT_WITNESS = {"n_inputs": 2, "nodes": [{"op": "getitem", "obj": {"in": 0}, "key": {"lit": 0}}, {"op": "assert", "xs": {"r": 0}, "cond": {"in": 1}, "msg": None},
+                                                   {"op": "cast", "x": {"r": 1}}], "output": {"tuple": [{"r": 2}, {"r": 2}, {"r": 2}]}}
 WITNESSES = [("D6: one GetItem, three uses in the output", D6_WITNESS), ("D6: one GetItem with three consumers", D6_WITNESS_CALLS),
-             ("unary operator followed by an attribute access", UNARY_WITNESS)]
+             ("unary operator followed by an attribute access", UNARY_WITNESS),
+             ("multi-use cast of a cast of a GetItem", ALIAS2_WITNESS), ("multi-use cast of an assert of a GetItem", ALIAS2_ASSERT_WITNESS)]
 
 
 # ------------------------------------------------------------------------------------------------ T-str
